@@ -679,6 +679,15 @@ example : watch [[.exec, .notExec], [.exec, .err], [.exec, .exec]] = some 2 ∧
     sweeps [[.exec, .notExec], [.exec, .err], [.exec, .exec]] = [[0, 1], [0, 1], [0, 1]] ∧
     watch [[.notExec, .exec], [.err, .exec]] = none := by decide
 
+/-- (definitional) every lookup of a sequence answered by the stateless adapters is faithful, whatever came before — in
+    particular a proposal of another source domain with the same nonce is asked about on its own -/
+theorem lookupSeq_faithful (pre : List (Nat × Nat × Ans)) (src nonce : Nat) (a : Ans) :
+    PLookupStep pre src nonce a (some (lookupQuery src 0 nonce)) (lookupAnswer a) := ⟨rfl, rfl, rfl⟩
+
+/-- the shortcut for ANOTHER domain's equal nonce is not admissible: with only (1, 5) reported executed, answering
+    "executed" for (2, 5) without asking the node violates the predicate -/
+theorem nonce_only_cache_rejected : ¬ PLookupStep [(1, 5, .exec)] 2 5 .notExec none .exec := by decide
+
 /-! #### histories -/
 
 theorem hasErr_answersFrom (ex : List Nat) (f : Option Nat) (i : Nat) (ns : List Nat) :
